@@ -138,6 +138,11 @@ def M_flatten(it, ctx, args, st):
     yield st, Agg('It', ('qvals', (z3.If(o.discr == 1, n, bv(0)), items), None, 0, None))
 
 
+def M_qvals_into_iter(it, ctx, args, st):
+    qv = st.deref_all(args[0])
+    yield st, Agg('It', ('qvals', (qv.fields[0], qv.fields[1]), None, 0, None))
+
+
 def it_next_q(it, st, itv, fr):
     kind, src, f, pos, cur = itv.fields
     n, items = src
@@ -216,6 +221,8 @@ MODELS = [
     (r'std::collections::HashMap::<std::borrow::Cow<str>, std::vec::Vec<std::borrow::Cow<str>>>::get::<str>', M_query_get),
     (r'<std::option::Option<&std::vec::Vec<std::borrow::Cow<str>>> as std::iter::IntoIterator>::into_iter', M_opt_into_iter),
     (r'<std::option::IntoIter<&std::vec::Vec<std::borrow::Cow<str>>> as std::iter::Iterator>::flatten', M_flatten),
+    (r'<.* as std::iter::IntoIterator>::into_iter', M_qvals_into_iter,
+     lambda it, ctx, args, st: isinstance(args[0], Ptr) and isinstance(st.deref_all(args[0]), Agg) and st.deref_all(args[0]).name == 'QVals'),
     (r'(?:conjure_http::private|http)::Extensions::get::<(?:conjure_http::)?(?:path_params::)?PathParams>', M_ext_get_pathparams),
     (r'<(?:conjure_http::)?(?:path_params::)?PathParams as std::ops::Index<&str>>::index', M_pathparams_index),
     (r'(?:conjure_http::private|http)::Extensions::insert::<conjure_http::SafeParams>', M_ext_insert_safeparams),
